@@ -346,14 +346,27 @@ def r_forest_validators(model, rep):
     ps = [ev for ev in cx.events if ev.kind == "store" and ev.target == ("attr", var, "parent") and cx.is_self(ev.value)]
     ok = bool(ps) and bool(v) and ps[0].seq < v[0].seq
     if ok:
-        # ... for real variants: whatever attribute the "is this a Variant?" test probes, Variant objects have it and the
-        # top-level container does not
-        va = set(model.cls("composeinfo.Variant").init_attrs(model))
-        ca = set(model.cls("composeinfo.Variants").init_attrs(model))
+        # ... for real variants of *both* formats (treeinfo.Variant derives from VariantBase, not from composeinfo.Variant) and
+        # not for the top-level containers: whatever the "is this a Variant?" test probes must say so for each of them
+        variants_ = [model.cls("composeinfo.Variant"), model.cls("treeinfo.Variant")]
+        containers_ = [model.cls("composeinfo.Variants"), model.cls("treeinfo.Variants")]
+
+        def probe(x, c):
+            """the truth of one probe for receivers of class c; None if x is no probe"""
+            if x[0] == "call" and x[1] == ("global", "hasattr") and len(x[2]) == 2 and cx.is_self(x[2][0]) and x[2][1][0] == "const":
+                return x[2][1][1] in c.init_attrs(model) or c.lookup(x[2][1][1]) is not None
+            if x[0] == "call" and x[1] == ("global", "isinstance") and len(x[2]) == 2 and cx.is_self(x[2][0]) and x[2][1][0] == "global":
+                r_ = model.resolve_name(f.module, x[2][1][1])
+                if r_ and r_[0] == "class":
+                    return r_[1] in c.mro()
+                return None
+            return None
         for g in ps[0].guards:
-            for x in T.walk(g[0]):
-                if x[0] == "call" and x[1] == ("global", "hasattr") and len(x[2]) == 2 and cx.is_self(x[2][0]) and x[2][1][0] == "const":
-                    ok = ok and g[1] is True and x[2][1][1] in va and x[2][1][1] not in ca
+            for c in variants_ + containers_:
+                v_ = T.truth(g[0], lambda x, c=c: probe(x, c))
+                if v_ is None:
+                    continue
+                ok = ok and ((v_ is g[1]) == (c in variants_))
     rep.ob("R-FOREST-VALIDATORS", "VariantBase.add:parent-set-before-validate", ok, site=cx.site(f.node),
            msg="" if ok else "the child's parent pointer must be set before it is validated (uid / arch alignment)")
     # a refusal is a refusal: whatever the handler that restores the parent pointer does, it raises again
